@@ -1,6 +1,6 @@
 (* Correspondence cases for the identity model (go/inpkg/ident.go). Executable only. *)
 From Coq Require Import List NArith Bool.
-From Verif Require Import Ident.Ident.
+From Verif Require Import Ident.Ident Ident.Pool.
 Import ListNotations.
 Open Scope N_scope.
 
@@ -8,11 +8,27 @@ Inductive icase :=
 | IConn (id : N) (dialer : ident) (target : N) (listener : ident) (accepted : bool) (processed : N)
     (* real connPool.doRPC of a vote request through real server.handleConn: did doRPC succeed, how many
        non-identity requests reached the listener's handlers *)
-| ISet (id : N) (stored : ident) (cid nid : N) (res : N) (after : ident).
+| ISet (id : N) (stored : ident) (cid nid : N) (res : N) (after : ident)
+| IPool (id : N) (ops : list (N * N)) (obs : list (N * N * N)).
+    (* one real connPool against a scripted peer: ops = (tag, 0 answered in time / 1 answered after the deadline /
+       2 connection broken); observed per doRPC: the tag of the reply it returned (0 = error), the number of pooled
+       connections afterwards, the number of dials so far *)
     (* real SetIdentity on a directory holding [stored]; res: 0 ok, 1 zero id, 2 already set *)
+
+Definition pool_op (x : N * N) : prpc :=
+  PRpc (fst x) (match snd x with 0 => PAnswered | 1 => PLate | _ => PBroken end).
+Definition pool_obs (r : prpc * pres) : N * N * N :=
+  (match pr_reply (snd r) with Some t => t | None => 0 end, pr_idle (snd r), pr_dials (snd r)).
+Fixpoint obs_eqb (a b : list (N * N * N)) : bool :=
+  match a, b with
+  | [], [] => true
+  | (x1, y1, z1) :: r1, (x2, y2, z2) :: r2 => (x1 =? x2) && (y1 =? y2) && (z1 =? z2) && obs_eqb r1 r2
+  | _, _ => false
+  end.
 
 Definition check_icase (c : icase) : bool :=
   match c with
+  | IPool _ ops obs => obs_eqb (map pool_obs (prun pinit (map pool_op ops))) obs
   | IConn _ d t l accepted processed =>
       let ok := identity_reply l (i_cid d) t in
       Bool.eqb accepted ok && (processed =? (if ok then 1 else 0))
@@ -20,5 +36,5 @@ Definition check_icase (c : icase) : bool :=
       let (r, s') := set_identity stored cid nid in
       (res =? match r with SetOk => 0 | ErrZero => 1 | ErrAlreadySet => 2 end) && ident_eqb s' after
   end.
-Definition icase_id (c : icase) : N := match c with IConn i _ _ _ _ _ | ISet i _ _ _ _ _ => i end.
+Definition icase_id (c : icase) : N := match c with IConn i _ _ _ _ _ | ISet i _ _ _ _ _ | IPool i _ _ => i end.
 Definition mismatches (l : list icase) : list N := map icase_id (filter (fun c => negb (check_icase c)) l).
